@@ -89,9 +89,82 @@ def failing_label(a):
     return out
 
 
+def two_threads_one_filler(a):
+    """(child) one filler used by two threads, each confined to its own split; some of thread A's writes are paused in the middle (the
+    example is a mapping whose lookup of the attribute waits) while the other thread completes a write into the other split.  Sizes are
+    per split: every shard but the last of a split is full, none is over-full."""
+    import shutil, threading
+    from pathlib import Path
+    from harness.core import sp
+    sp.sedpack()
+    from sedpack.io import Dataset
+    class Pausing(dict):
+        def __init__(self, d, reached, go):
+            super().__init__(d); self._reached, self._go, self._done = reached, go, False
+        def __getitem__(self, k):
+            if not self._done:
+                self._done = True; self._reached.set(); self._go.wait(10)
+            return super().__getitem__(k)
+    out = []
+    for fmt in a["fmts"]:
+        root = Path(a["root"]); shutil.rmtree(root, ignore_errors=True)
+        r = {"fmt": fmt, "eps": a["eps"]}
+        try:
+            ds = sp.mk(root, fmt=fmt, eps=a["eps"])
+            errs = []
+            with ds.filler() as f:
+                pauses = {}
+                def writer_a():
+                    try:
+                        for v in range(a["na"]):
+                            vals = sp.val(v)
+                            if v in a["pause_at"]:
+                                ev = pauses[v] = (threading.Event(), threading.Event())
+                                vals = Pausing(vals, *ev)
+                            f.write_example(values=vals, split="train")
+                    except Exception as e:  # noqa: BLE001
+                        errs.append(f"A: {type(e).__name__}: {str(e)[:120]}")
+                t = threading.Thread(target=writer_a)
+                for v in a["pause_at"]: pauses[v] = None
+                t.start()
+                vb = 1000
+                import time
+                for v in a["pause_at"]:
+                    t0 = time.time()
+                    while (pauses.get(v) is None or not pauses[v][0].wait(0.05)) and time.time() - t0 < 5 and t.is_alive(): pass
+                    try:
+                        f.write_example(values=sp.val(vb), split="test"); vb += 1        # one complete write into the other split meanwhile
+                    except Exception as e:  # noqa: BLE001
+                        errs.append(f"B: {type(e).__name__}: {str(e)[:120]}")
+                    if pauses.get(v): pauses[v][1].set()
+                t.join(60)
+                for _ in range(a["nb"] - len(a["pause_at"])):
+                    f.write_example(values=sp.val(vb), split="test"); vb += 1
+            r["errors"] = errs
+            d2 = Dataset(root)
+            r["sizes"] = {s_: [[si.number_of_examples, len(F.decode_shard(d2, d2.path / si.file_infos[0].file_path))] for si in d2.shard_info_iterator(s_)] for s_ in ("train", "test")}
+            r["want"] = {"train": a["na"], "test": a["nb"]}
+        except Exception as e:  # noqa: BLE001
+            r["error"] = f"{type(e).__name__}: {str(e)[:200]}"
+        out.append(r)
+        shutil.rmtree(root, ignore_errors=True)
+    return out
+
+
 def run(ctx):
     from harness.core import child
     nfl = 0
+    for r in child.call("harness.checks.c10", "two_threads_one_filler", {"root": str(ctx.scratch / "c10_threads"), "fmts": ["npz", "fb"] if not ctx.thorough else ["npz", "fb", "tfrec"],
+                                                                      "eps": 4, "na": 10, "nb": 9, "pause_at": [2, 3, 6]}, timeout=600):
+        nfl += 1
+        bad = r.get("error") or r.get("errors")
+        if not bad:
+            for s_, sizes in r["sizes"].items():
+                if any(n != st for n, st in sizes) or any(not (1 <= n <= r["eps"]) for n, _ in sizes) or any(n != r["eps"] for n, _ in sizes[:-1]) or sum(n for n, _ in sizes) != r["want"][s_]:
+                    bad = f"split {s_}: shards (recorded, stored) {sizes} for {r['want'][s_]} examples, eps={r['eps']}"
+        if bad:
+            ctx.report({"kind": "size", "format": r["fmt"], "two_threads": True},
+                       f"{r['fmt']}: one filler used by two threads, each writing its own split, some writes overlapping in time: {bad}", {"threads_case": r})
     for j, fmt in enumerate(["fb", "npz", "tfrec"][: ctx.pick(2, 3)]):
         fa = {"root": str(ctx.scratch / f"c10_label{j}"), "fmt": ["fb", "npz", "tfrec"][(j + ctx.seed) % 3], "eps": [4, 2, 3][j], "steps": 4, "bad_run": [3, 7, 1][j], "kinds": ["lock", "deep"]}
         for r in child.call("harness.checks.c10", "failing_label", fa, timeout=600):
